@@ -11,7 +11,8 @@ def showTaken : Option (List Ack) → String
   | some l => showAcks l
 
 def showState (s : State) : String :=
-  s!"pending={showAcks s.pending} inflight={natList (s.flights.map (·.id))} subs={natList s.subs}"
+  let subs := s.subs.map fun x => s!"{x.id}:{boolStr x.enabled}:{boolStr x.hasItem}"
+  s!"pending={showAcks s.pending} inflight={natList (s.flights.map (·.id))} subs=[{",".intercalate subs}] cb={s.callbacks}"
 
 def showOut : Out → String
   | .sent id acks => s!"ok sent id={id} acks={showTaken acks}"
@@ -36,7 +37,17 @@ def parseOp? : List String → Option Op
     | some i, some st => some (.fail i (.fault st))
     | _, _ => none
   | ["connected", c] => (parseBool? c).map .setConnected
-  | ["addsub", i] => i.toNat?.map .addSub
+  | ["addsub", i] => i.toNat?.map (fun i => .addSub i true)
+  | ["addsub", i, e] =>
+    match i.toNat?, parseBool? e with
+    | some i, some e => some (.addSub i e)
+    | _, _ => none
+  | ["setpub", i, e] =>
+    match i.toNat?, parseBool? e with
+    | some i, some e => some (.setPub i e)
+    | _, _ => none
+  | ["additem", i] => i.toNat?.map (fun i => .setItem i true)
+  | ["delitem", i] => i.toNat?.map (fun i => .setItem i false)
   | ["delsub", i] => i.toNat?.map .delSub
   | _ => none
 
@@ -83,15 +94,31 @@ def opArms (s : State) : Op → List String
      | some f => [match f.taken with | none => "complete-carried-none" | some _ => "complete-carried-acks"]
      | none => []) ++
     [if ka then "complete-keepalive" else "complete-data", if more then "complete-more" else "complete-nomore",
-     if s.subs.contains sub then "complete-sub-known" else "complete-sub-unknown"]
+     match findSub s.subs sub with
+     | none => "complete-sub-unknown"
+     | some x => if x.enabled then "complete-sub-enabled" else "complete-sub-disabled"] ++
+    (if ka then [] else
+      match findSub s.subs sub with
+      | some x => [if x.hasItem then "complete-delivered" else "complete-no-item"]
+      | none => ["complete-no-subscription"])
   | .fail id k =>
     kindArm k :: (match findFlight s.flights id with
      | some f => [match f.taken with | none => "fail-requeue-none" | some _ => "fail-requeue-acks"]
      | none => [])
   | .setConnected c =>
     [if c then "connected-1" else "connected-0"] ++ (if s.flights.isEmpty then [] else ["connected-change-inflight"])
-  | .addSub id => [if s.subs.contains id then "addsub-existing" else "addsub-new"]
-  | .delSub id => [if s.subs.contains id then "delsub-existing" else "delsub-missing"]
+  | .addSub id e =>
+    [if (findSub s.subs id).isSome then "addsub-existing" else "addsub-new", if e then "addsub-enabled" else "addsub-disabled"]
+  | .delSub id => [if (findSub s.subs id).isSome then "delsub-existing" else "delsub-missing"]
+  | .setPub id e =>
+    [match findSub s.subs id with
+     | none => "setpub-unknown"
+     | some x => if x.enabled = e then (if e then "setpub-stays-enabled" else "setpub-stays-disabled")
+                 else if e then "setpub-enable" else "setpub-disable"]
+  | .setItem id b =>
+    [match findSub s.subs id with
+     | none => "setitem-unknown"
+     | some _ => if b then "setitem-add" else "setitem-remove"]
 
 def dstep (s : State) (toks : List String) : State × String :=
   match toks with
@@ -100,7 +127,9 @@ def dstep (s : State) (toks : List String) : State × String :=
     match n.toNat? with
     | some n => let s' := { init with maxPublish := n }; (s', "ok " ++ showState s')
     | none => (s, "bad-op")
-  | ["age"] => (age s, tagged "ok" [if s.subs.isEmpty then "age-no-subscription" else "age"])
+  | ["age"] =>
+    (age s, tagged "ok" [if s.subs.isEmpty then "age-no-subscription"
+                         else if s.subs.any (·.enabled) then "age" else "age-all-disabled"])
   | ["trigger"] =>
     let (evs, s') := loopTrigger s
     (s', tagged (s!"ok ev={showEvs evs} " ++ showState s')
@@ -116,7 +145,10 @@ def dstep (s : State) (toks : List String) : State × String :=
         let s1 := { (complete s i a b m k).2 with waiting := false }
         (s', tagged (s!"ok ev={showEvs evs} " ++ showState s')
           ([if m then (if s.connected then "lcomplete-more-restart" else "lcomplete-more-unconnected") else "lcomplete-nomore",
-            if kind = "data" then "lcomplete-data" else if kind = "kanone" then "lcomplete-kanone" else "lcomplete-kaempty"] ++
+            if kind = "data" then "lcomplete-data" else if kind = "kanone" then "lcomplete-kanone" else "lcomplete-kaempty",
+            match findSub s.subs a with
+            | none => "lcomplete-sub-unknown"
+            | some x => if x.enabled then "lcomplete-sub-enabled" else "lcomplete-sub-disabled"] ++
            (if s.waiting then ["lcomplete-clears-waiting"] else []) ++
            (if m then [] else [tickArm (newTurn s1)])))
       | none => (s, "bad-op")
